@@ -114,6 +114,70 @@ pub fn e1_spec(id: &str, tier: &str) -> Option<Spec> {
             config: "seq",
             assumptions: base_assumptions(),
         }),
+        "C05" => Some(Spec {
+            id: "C05",
+            programs: progs::lru_set(),
+            depth: if quick { 5 } else { 6 },
+            alphabet: Box::new(progs::lru_alphabet),
+            flags: Flags { values: true, lru: true, justify: true, fresh_end: true, ..Flags::default() },
+            rule: RULE_E1,
+            cap_s: cap,
+            config: "seq",
+            assumptions: {
+                let mut a = base_assumptions();
+                a.push("the number of cached results is observed through Database::memory_usage (heap_size = 1 per value); recency is modelled over fetches (top level and from bodies)".into());
+                a
+            },
+        }),
+        "C06" => Some(Spec {
+            id: "C06",
+            programs: progs::struct_set(),
+            depth: if quick { 5 } else { 6 },
+            alphabet: Box::new(progs::struct_alphabet),
+            flags: Flags { values: true, ident: true, justify: true, fresh_end: true, ..Flags::default() },
+            rule: RULE_E1,
+            cap_s: cap,
+            config: "seq",
+            assumptions: {
+                let mut a = base_assumptions();
+                a.push("for the colliding-hash struct type, identity stability is asserted only while the sequence of creations is unchanged (salsa disambiguates per hash of the identity fields)".into());
+                a
+            },
+        }),
+        "C07" => Some(Spec {
+            id: "C07",
+            programs: {
+                let mut v = progs::churn_struct_set();
+                v.push(progs::intern_prog(1));
+                v.push(progs::intern_prog(2));
+                if !quick {
+                    v.push(progs::intern_prog(3));
+                }
+                v
+            },
+            depth: if quick { 6 } else { 7 },
+            alphabet: Box::new(|p: &ql::ex::Program| if p.name.starts_with("churn") { progs::churn_struct_alphabet(p) } else { progs::intern_alphabet_full(p) }),
+            flags: Flags { values: true, alias: true, justify: true, fresh_end: true, ..Flags::default() },
+            rule: RULE_E1,
+            cap_s: cap,
+            config: "seq",
+            assumptions: base_assumptions(),
+        }),
+        "C09" => Some(Spec {
+            id: "C09",
+            programs: vec![progs::intern_prog(1), progs::intern_prog(2), progs::intern_prog(3), progs::intern_prog(0)],
+            depth: if quick { 7 } else { 9 },
+            alphabet: Box::new(progs::intern_alphabet_small),
+            flags: Flags { values: true, intern: true, alias: true, ..Flags::default() },
+            rule: RULE_E1,
+            cap_s: cap,
+            config: "seq",
+            assumptions: {
+                let mut a = base_assumptions();
+                a.push("interning functions are uniformly LOW or uniformly HIGH (the statement's 'functions whose inputs all had LOW durability' and the code's 'stamp durability at interning time' coincide there)".into());
+                a
+            },
+        }),
         "C12" | "C13" => {
             use ql::ex::Kind;
             let c13 = id == "C13";
